@@ -211,7 +211,7 @@ def fd_ownership(chk, db, rule):
                             if rvv != a:
                                 why.append('%s returns %s' % (ctx, rvv))
                         if set(real) != owned:
-                            why.append('%s followed by the destructors closes %s, the descriptors owned were %s' % (ctx, sorted(real), sorted(owned)))
+                            why.append('%s followed by the destructors closes %s, the descriptors owned were %s' % (ctx, sorted(real, key=str), sorted(owned, key=str)))
                     if why is None:
                         break
                 if why is None:
